@@ -189,8 +189,9 @@ def kw_case(rng, word, mode):
 
 class Spelling:
     """all spelling choices derive from the rng given at construction; canonical = no rng"""
-    def __init__(self, rng, lang, perm=None, sep=None, case_mode=None):
+    def __init__(self, rng, lang, perm=None, sep=None, case_mode=None, names=None):
         self.rng = rng
+        self.names = names          # column names of table a, when the run supplies them: aN may then be spelled a["name"]
         self.lang = lang
         self.canon = rng is None
         self.perm = perm            # enumerated clause order (tuple of indices) instead of a random shuffle
@@ -216,6 +217,10 @@ class Spelling:
         return ws
 
     def var(self, t, n):
+        if not self.canon and self.names and t == 'a' and n <= len(self.names) and self.rng.random() < 0.3:
+            # one more interchangeable spelling of the same column: by name, the name being a string literal (opaque: commas, keywords)
+            q = self.rng.choice(['"', "'"])
+            return 'a[%s%s%s]' % (q, self.names[n - 1], q)
         if not self.canon and self.rng.random() < self.brackets:
             return '%s[%d]' % (t, n)
         return '%s%d' % (t, n)
@@ -663,7 +668,7 @@ def run(ctx):
             base = {'kind': 'query', 'lang': lang, 'table': table, 'join': join if q['join'] is not None else None,
                     'canon_q': canon, 'lit_cols': lit_columns(q)}
             if with_header:
-                base['names'] = ['c1', 'x', 'name']
+                base['names'] = ['Last, First', 'select where =', 'name']        # names only a quoted spelling can carry
                 if base['join'] is not None:
                     base['join_names'] = ['k', 'x']
             n_sp = sz['spellings'] if not with_header else max(2, sz['spellings'] // 4)
@@ -671,7 +676,7 @@ def run(ctx):
             public[lang].append(dict(base, q=canon, is_canon=True))
             internal[lang].append({'kind': 'internal', 'lang': lang, 'q': canon, 'spec_literals': canon_lits})
             for _ in range(n_sp):
-                text, tl = render(q, Spelling(rng, lang))
+                text, tl = render(q, Spelling(rng, lang, names=base.get('names')))
                 if text in seen:
                     continue
                 seen.add(text)
